@@ -1,6 +1,8 @@
 package core
 
 import (
+	"reflect"
+	"strings"
 	"time"
 )
 
@@ -16,6 +18,12 @@ func compare(a interface{}, b interface{}) int {
 			return 1
 		}
 		return 0
+	}
+
+	if typeA, typeB := reflect.TypeOf(a), reflect.TypeOf(b); typeA != typeB {
+		// A dimension can hold values of different types in different rows. Order
+		// those by type name rather than panicking on the type assertions below.
+		return strings.Compare(typeA.String(), typeB.String())
 	}
 
 	switch ta := a.(type) {
@@ -60,7 +68,7 @@ func compare(a interface{}, b interface{}) int {
 			return -1
 		}
 	case uint:
-		tvb := uint(b.(uint64))
+		tvb := b.(uint)
 		if ta > tvb {
 			return 1
 		}
